@@ -16,7 +16,7 @@ from concurrent.futures import ThreadPoolExecutor
 HERE = os.path.dirname(os.path.dirname(os.path.abspath(__file__)))
 sys.path.insert(0, HERE)
 sys.path.insert(0, os.path.join(HERE, 'tools'))
-from mutation_sweep import targets, find, REPO  # noqa: E402
+from mutation_sweep import targets, find, REPO, run_group  # noqa: E402
 
 
 def local_names(fn):
@@ -136,8 +136,8 @@ def run_variant(job):
         for prop, idents in sorted(props.items()):
             globs = ',,'.join(sorted(idents | structural.get(prop, set())))
             try:
-                p = subprocess.run(['python3-vt', '-m', 'pyvc.driver', prop, '--no-evidence', '--no-replay', '--jobs', str(jobs_per), '--fuc', globs],
-                                   cwd=HERE, capture_output=True, text=True, timeout=1800, env=dict(os.environ, PYVC_REPO=d))
+                p = run_group(['python3-vt', '-m', 'pyvc.driver', prop, '--no-evidence', '--no-replay', '--jobs', str(jobs_per), '--fuc', globs],
+                                   timeout=1800, cwd=HERE, env=dict(os.environ, PYVC_REPO=d))
             except subprocess.TimeoutExpired:
                 res['checks'][prop] = {'exit': 2, 'lines': ['UNDECIDED: check did not finish in 1800 s']}
                 worst = max(worst, 2)
